@@ -13,27 +13,36 @@ class P(vlib.Prop):
     case_type = "vcase"
     shard = 40
     harnesses = [
-        vlib.Harness("pq", "exporter/exporterhelper", "./internal/queuebatch/",
-                     {"zz_verif_c01_test.go": "C01/pq_test.go"}, "^TestVerifC01$", "queuebatch", timeout=900),
+        vlib.Harness("pq", "exporter", "./exporterhelper/internal/queuebatch/",
+                     {"zz_verif_c01_test.go": "C01/pq_test.go"}, "^TestVerifC01$", "queuebatch", timeout=1500),
+        vlib.Harness("e2e", "exporter", "./exporterhelper/internal/queuebatch/",
+                     {"zz_verif_c01_test.go": "C01/pq_test.go", "zz_verif_c01_e2e_test.go": "C01/e2e_test.go"},
+                     "^TestVerifC01E2E$", "queuebatch", timeout=900),
+        vlib.Harness("retry", "exporter", "./exporterhelper/internal/",
+                     {"zz_verif_c01_retry_test.go": "C01/retry_test.go"}, "^TestVerifC01Retry$", "internal", timeout=600),
     ]
     rule = ("histories of process incarnations on the real persistentQueue[uint64] over one backing map: generated "
             "scripts (Offer/Read/Complete/Shutdown 40/30/25/5, outcomes ok/failed/shutdown 60/25/15, capacities 1-8 and 100, "
-            "requests and size-function sizers, warm and cold stores); EVERY storage-call boundary of every script "
-            "(Start/recovery included) is used as a death point, and below each of them every boundary of the next "
-            "incarnation (thorough: a third level, thinned 1:3), then a clean drain incarnation. Compared inside Coq: "
-            "per operation result class / index / id / Size(), death flag, Close count and the complete store as bytes "
-            "after every incarnation; plus decoder/encoder cases on random bytes. A history is non-trivial when some "
-            "incarnation died or some request was handed off; distinct = distinct case terms.")
+            "requests and size-function sizers, warm, cold and hand-made initial stores with missing bodies / stale di entries / "
+            "write index without read index); EVERY storage-call boundary of every script (Start/recovery included) is used as a "
+            "death point, and below each of them every boundary of the next incarnation (thorough: a third level, thinned 1:3), "
+            "then clean drain incarnations until the store holds no body. Compared inside Coq: per operation result class / index / "
+            "id / Size(), death flag, Close count and the complete store as bytes after every incarnation; plus decoder/encoder "
+            "cases on random bytes and the ends of the real retrySender.Send (class of the error the queue sees). Oracle-only (no cases): "
+            "300 concurrent end-to-end histories through the real asyncQueue consumers + disabled batcher with deaths emulated at the "
+            "storage boundary. A history is "
+            "non-trivial when some incarnation died or some request was handed off; distinct = distinct case terms.")
     trusted_base = [
         "Coq 8.16.1 kernel + vm_compute (coqc); no axioms (Print Assumptions: closed under the global context)",
         "hand-written model C01/Model.v of persistent_queue.go, tied by the correspondence run (every case evaluated in Coq)",
-        "Go harness harness/C01/pq_test.go (map-backed storage.Client that panics at the chosen call) + go test -overlay; Go toolchain",
+        "Go harnesses harness/C01/pq_test.go (map-backed storage.Client that panics at the chosen call and refuses every later call) and retry_test.go + go test -overlay; Go toolchain",
         "the decoded-store representation: model store fields are the decoded values; codec_roundtrip + byte-level comparison tie it to the real bytes",
     ]
     assumptions = [
         "storage.Client contract: each Get/Set/Delete/Batch call is atomic and durable, Batch applies its operations in order; calls do not fail (the property quantifies over deaths, not storage errors)",
         "fewer than 2^64 requests are ever written to one storage (indexes are unbounded N in the model) and fewer than 2^32 requests are in flight",
-        "each public queue call is atomic (pq.mu held); one incarnation is modelled as a sequential script",
-        "blockOnOverflow = false (with blocking, finding F2 turns into a Start that never returns)",
+        "each public queue call is atomic (pq.mu held); one incarnation is modelled as a sequential script; the hand-off event is placed at the return of Read (a death between the dequeue batch and the consumer is the death point 'before the next storage call')",
+        "blockOnOverflow = false",
         "request bodies are 8-byte little-endian ids (the marshalled form of real requests is C08's business)",
+        "pq_at_least_once: every request fits into the empty queue (sizeof <= capacity), the drain incarnations do not die",
     ]
